@@ -1,7 +1,7 @@
 SPECIFICATION Spec
 CONSTANTS
   Msgs = {1, 2, 3}
-  MaxParts = 2
+  MaxParts = 3
   Refs = {7, 8}
   SameRef = FALSE
   Echo = TRUE
